@@ -573,6 +573,13 @@ class Engine:
             while isinstance(v.ty, TOpt):
                 v = V(v.ty.inner, v.ty.val(v.t))
             return v
+        if name == 'same':
+            # frame equality: the very same value (for lists / dicts: same array and length, not just equal elements) -- what
+            # "this field was not touched" means; stronger than Python's ==
+            a = ev.ev(n.args[0], ctx)
+            b = ev.ev(n.args[1], ctx)
+            ty = join_types(a.ty, b.ty)
+            return V(BOOL, coerce(a, ty).t == coerce(b, ty).t)
         if name == 'set_of':
             return self.set_of_list(ev.ev(n.args[0], ctx), ctx)
         if name == 'set_add':
@@ -838,7 +845,58 @@ class Engine:
             return mk_bool(isinstance(v.ty, (TList, TBag)))     # a bag models a list whose order is abstracted
         raise OutOfSubset(f'isinstance {tn}')
 
+    def bi_zip(self, n, ctx, ev):
+        """zip(a, b) of two lists as a value: the list of pairs, as long as the shorter one (a function of both list values)"""
+        if len(n.args) != 2 or n.keywords:
+            raise OutOfSubset('zip form')
+        a = ev.unwrap_opt(ev.ev(n.args[0], ctx), ctx)
+        b = ev.unwrap_opt(ev.ev(n.args[1], ctx), ctx)
+        if not (isinstance(a.ty, TList) and isinstance(b.ty, TList)):
+            raise OutOfSubset(f'zip({a.ty}, {b.ty})')
+        tt = TTuple([a.ty.elem, b.ty.elem])
+        lt = TList(tt)
+        nm = 'ZIP_' + lt.name.replace('[', '_').replace(']', '').replace(',', '_')
+        r = z3.Function(nm, a.ty.sort(), b.ty.sort(), lt.sort())(a.t, b.t)
+        la, lb = list_len(a), list_len(b)
+        ctx.assume(lt.n(r) == z3.If(la <= lb, la, lb))
+        if getattr(ctx, 'binders', 0) == 0:
+            k = fresh('k', z3.IntSort())
+            ctx.assume(z3.ForAll([k], z3.Implies(z3.And(0 <= k, k < lt.n(r)),
+                                                 z3.Select(lt.arr(r), k) == tt.mk(z3.Select(a.ty.arr(a.t), k), z3.Select(b.ty.arr(b.t), k)))))
+        return V(lt, r)
+
+    def sum_over_opaque(self, gen, ctx, ev):
+        """sum(g(x) for x in L) where L is an opaque list (e.g. a list of Mod objects): SUMOVER_<g>(L, ...), a function of the list
+        value and of whatever else g mentions (g must only call pure contracts)"""
+        g = gen.generators[0]
+        if len(gen.generators) != 1 or g.ifs or not isinstance(g.target, ast.Name) or not self._elt_calls_pure(gen.elt):
+            return None
+        src = ev.unwrap_opt(ev.ev(g.iter, ctx), ctx)
+        if not isinstance(src.ty, TAbs):
+            return None
+        et = TAbs(src.ty.name + '_item')
+        e = z3.Const('e!sum', et.sort())
+        saved = dict(ctx.env)
+        ctx.env[g.target.id] = V(et, e)
+        n_as, n_ex = len(ctx.assumes), len(ctx.excs)
+        elt = ev.ev(gen.elt, ctx)
+        self._close_assumes(ctx, n_as, [e], n_ex)
+        ctx.env.clear()
+        ctx.env.update(saved)
+        if elt.ty not in (INT, REAL):
+            return None
+        import hashlib
+        cs = sorted({str(c): c for c in _z3_consts(elt.t) if str(c) != 'e!sum'}.items())
+        nm = 'SUMOVER_' + hashlib.sha1(elt.t.sexpr().encode()).hexdigest()[:12]
+        f_ = z3.Function(nm, *([src.ty.sort()] + [c.sort() for _, c in cs] + [elt.ty.sort()]))
+        self.libs_used.add('LC-SUMOVER: sum(g(x) for x in L) over an opaque list L is a function of the list value (g pure)')
+        return V(elt.ty, f_(src.t, *[c for _, c in cs]))
+
     def bi_sum(self, n, ctx, ev):
+        if len(n.args) == 1 and isinstance(n.args[0], ast.GeneratorExp):
+            r = self.sum_over_opaque(n.args[0], ctx, ev)
+            if r is not None:
+                return r
         v = ev.ev(n.args[0], ctx)
         if isinstance(v.ty, TList) and v.ty.elem in (INT, REAL):
             return self.list_sum(v, list_len(v), ctx)
